@@ -170,56 +170,46 @@ Fixpoint last_stmt (s : stmt) : stmt := match s with SSeq _ b => last_stmt b | _
 Definition loop_body (s : stmt) : stmt :=
   match last_stmt s with SForRange _ _ b => b | SForRows _ _ b => b | SForEnum _ _ _ b => b | _ => SSkip end.
 
-Ltac ev1 := cbn [exec eval upd String.eqb Ascii.eqb Bool.eqb fnat].
+Ltac ev1 := cbn [exec eval upd String.eqb Ascii.eqb Bool.eqb fnat as_key].
 Ltac look := match goal with H : ?e ?x = Some _ |- context [?e ?x] => rewrite H end.
 Ltac ev := repeat (progress ev1 || look
                    || (erewrite index_embD' by eassumption) || rewrite index_row0 || rewrite index_row1 || rewrite index_row2
                    || rewrite qtrunc_inject_Z).
 
 (** * [{i: [i] for i in range(n)}] is the initial [cluster] dict *)
+Lemma dset_fresh_raw k v (acc : list (Z * val)) : ~ In k (map fst acc) -> dset k v acc = (acc ++ [(k, v)])%list.
+Proof.
+  induction acc as [|[k' v'] t IH]; intros H; [reflexivity|]. cbn [dset].
+  destruct (Z.eqb_spec k k') as [E|E]; [exfalso; apply H; left; symmetry; exact E|].
+  cbn [app]. f_equal. apply IH. intros Hin. apply H. right. exact Hin.
+Qed.
+
+(** a comprehension [{lo + i: h i for i in range(len)}] appends its entries in order when the keys are new *)
+Lemma dict_range_fresh (f : nat -> pres (Z * val)) (lo : nat) (h : nat -> val) :
+  (forall i, f i = POk (Z.of_nat (lo + i), h i)) ->
+  forall len a acc, (forall k, In k (map fst acc) -> (k < Z.of_nat (lo + a))%Z) ->
+    dict_range f (seq a len) acc = POk (acc ++ map (fun i => (Z.of_nat (lo + i), h i)) (seq a len))%list.
+Proof.
+  intros Hf. induction len as [|len IH]; intros a acc Hacc.
+  - cbn [seq dict_range map]. rewrite app_nil_r. reflexivity.
+  - cbn [seq dict_range map]. rewrite Hf.
+    rewrite dset_fresh_raw by (intros Hin; apply Hacc in Hin; lia).
+    rewrite IH.
+    + rewrite <- app_assoc. reflexivity.
+    + intros k Hin. rewrite map_app in Hin. apply in_app_or in Hin. destruct Hin as [Hin|Hin].
+      * apply Hacc in Hin. lia.
+      * cbn in Hin. destruct Hin as [<-|[]]. lia.
+Qed.
+
 Lemma dict_range_init (x : string) (e : env) n :
   e "n"%string = Some (vnat n) ->
   eval (EDictRange x (EVar x) (EList [EVar x]) (EVar "n"%string)) e = POk (e, embC (init_clusters n)).
 Proof.
   intros Hn. cbn [eval]. rewrite Hn. unfold vnat at 1. rewrite Nat2Z.id.
-  assert (G : forall len a acc, acc = embA embL (map (fun i => (i, [i])) (seq 0 a)) ->
-     (fix go (is : list nat) (acc : list (Z * val)) {struct is} : pres (list (Z * val)) :=
-        match is with
-        | [] => POk acc
-        | i :: rest =>
-            match match upd x (VInt (Z.of_nat i)) e x with
-                  | Some v => POk (upd x (VInt (Z.of_nat i)) e, v)
-                  | None => PErr PUnbound
-                  end with
-            | POk (_, VInt kz) =>
-                match match match upd x (VInt (Z.of_nat i)) e x with
-                            | Some v => POk (upd x (VInt (Z.of_nat i)) e, v)
-                            | None => PErr PUnbound
-                            end with
-                      | POk (e5, va) => POk (e5, VList [va])
-                      | PErr x0 => PErr x0
-                      end with
-                | POk (_, vv) => go rest (dset kz vv acc)
-                | PErr err => PErr err
-                end
-            | PErr err => PErr err
-            | _ => PErr PTypeError
-            end
-        end) (seq a len) acc = POk (embA embL (map (fun i => (i, [i])) (seq 0 (a + len))))).
-  { induction len as [|len IH]; intros a acc Hacc.
-    - simpl. rewrite Nat.add_0_r. subst. reflexivity.
-    - cbn [seq]. unfold upd at 1 2 3. rewrite String.eqb_refl.
-      rewrite (IH (S a)).
-      + replace (S a + len) with (a + S len) by lia. reflexivity.
-      + subst acc. change (VList [VInt (Z.of_nat a)]) with (embL [a]).
-        rewrite dset_emb_fresh.
-        * rewrite seq_S, map_app. reflexivity.
-        * apply alookup_None_notin. unfold akeys. rewrite map_map. simpl. rewrite map_id.
-          intros Hin. apply in_seq in Hin. lia. }
-  specialize (G n 0 [] eq_refl). simpl in G.
-  match goal with |- match ?t with _ => _ end = _ => replace t with
-     (POk (embA embL (map (fun i : nat => (i, [i])) (seq 0 n))) : pres (list (Z * val))) by (symmetry; exact G) end.
-  reflexivity.
+  rewrite (dict_range_fresh _ 0 (fun i => embL [i])).
+  - cbn [app]. unfold embC, init_clusters, embA. rewrite map_map. reflexivity.
+  - intros i. unfold upd. rewrite String.eqb_refl. reflexivity.
+  - intros k [].
 Qed.
 
 (** * A counted loop whose body simulates one [cut_step] simulates [replay] *)
@@ -302,7 +292,7 @@ Definition sim_bal (m n : nat) (D : dendrogram) (st : cstate) (e : env) : Prop :
   e "dendrogram" = Some (embD D) /\ e "cluster" = Some (embC st) /\ e "n" = Some (vnat n) /\
   e "max_cluster_size" = Some (vnat m).
 
-Ltac ev2 := cbn [exec eval upd String.eqb Ascii.eqb Bool.eqb fnat vnat embC embL index_vals option_map].
+Ltac ev2 := cbn [exec eval upd String.eqb Ascii.eqb Bool.eqb fnat vnat embC embL index_vals option_map as_key].
 Ltac evx := repeat (progress ev2 || look || (progress (unfold vnat))
                    || (erewrite index_embD' by eassumption) || rewrite index_row0 || rewrite index_row1 || rewrite index_row2
                    || rewrite qtrunc_inject_Z || rewrite dget_emb || rewrite dremove_emb || rewrite len_vnat
@@ -595,6 +585,26 @@ Proof.
       destruct (cut_of D 2 None); exact T'.
 Qed.
 
+(** * Flattened sequences (to address the inlined copies of a callee inside a caller) *)
+Fixpoint flat (s : stmt) : list stmt := match s with SSeq a b => flat a ++ flat b | _ => [s] end.
+Fixpoint exec_list (l : list stmt) (e : env) : pres env :=
+  match l with
+  | [] => POk e
+  | s :: t => match exec s e with POk e1 => exec_list t e1 | PErr x => PErr x end
+  end.
+Lemma exec_list_app l1 l2 e :
+  exec_list (l1 ++ l2) e = match exec_list l1 e with POk e1 => exec_list l2 e1 | PErr x => PErr x end.
+Proof.
+  revert e. induction l1 as [|s t IH]; intros e; [reflexivity|]. cbn [app exec_list].
+  destruct (exec s e); [apply IH | reflexivity].
+Qed.
+Lemma exec_flat s : forall e, exec s e = exec_list (flat s) e.
+Proof.
+  induction s; intros en; try (cbn [flat exec_list]; destruct (exec _ en); reflexivity).
+  cbn [flat exec]. rewrite exec_list_app, <- IHs1. destruct (exec s1 en); [apply IHs2 | reflexivity].
+Qed.
+
+
 (** * get_labels: the loop that builds the reduced dendrogram *)
 Definition sim_red (lv : option val) (cindex csize : list (nat * nat)) (cur cur_new : nat) (out : dendrogram) (e : env) : Prop :=
   e "cluster_index" = Some (embN cindex) /\ e "cluster_size" = Some (embN csize) /\
@@ -614,7 +624,7 @@ Definition red_f : val -> env -> pres env :=
               | _ => PErr PTypeError
               end.
 
-Ltac ev3 := cbn [exec eval upd String.eqb Ascii.eqb Bool.eqb fnat vnat embC embL embN index_vals option_map negb].
+Ltac ev3 := cbn [exec eval upd String.eqb Ascii.eqb Bool.eqb fnat vnat embC embL embN index_vals option_map negb as_key].
 Ltac evr := repeat (progress ev3 || look || (progress (unfold vnat))
                    || rewrite qtrunc_inject_Z || rewrite dget_emb || rewrite dremove_emb
                    || rewrite add_nat' || rewrite cmp_ne_nat').
